@@ -8,6 +8,7 @@ Require Import Zrs.model.Matcher Zrs.proofs.C06_Drain Zrs.proofs.C17_Matcher Zrs
 Require Import Zrs.model.HufDec Zrs.model.LitEnc Zrs.proofs.C02_Concrete.
 Require Import Zrs.model.SeqNorm Zrs.proofs.C02_O1.
 Require Import Zrs.proofs.C02_HufSide Zrs.proofs.C02_O2Table.
+Require Import Zrs.model.HufEnc Zrs.proofs.C02_O2Huffman.
 Open Scope Z_scope.
 
 (** level Uncompressed: every input, every fragmentation of the source reads, every block size up to 128 KiB, every
@@ -230,6 +231,25 @@ Theorem C02_model_literals_section_meets_O2 : forall h t ty desc lits,
   lit_ok h lits (huf_lit_header ty (zlen lits) (zlen payload)) payload t.
 Proof. exact model_section_meets_O2. Qed.
 
+(** O2 for Huffman-coded literals, for ANY weights: whatever weights the compressor chooses -- provided the decoder accepts
+    them and every literal has a code -- the section it writes (header, a weight description the decoder reads back as
+    those weights [both forms do: C13], four streams coded with the compressor's own canonical code [code_fn codes])
+    is read back by the decoder as exactly the literals.  How the weights are chosen (histogram, rank order,
+    distribute_weights) plays no role for correctness; what remains of O2 is that the compressor's output has this
+    form (compared byte for byte on every block of every run) *)
+Theorem C02_huffman_literals_meet_O2_for_any_weights : forall ws dec M bits ranks idxs,
+  Forall (fun w => 0 <= w) ws -> (length ws <= 255)%nat ->
+  build_table_from_weights ws = ROk (dec, M, bits, ranks, idxs) ->
+  exists lw codes, 1 <= lw <= M /\ enc_build_from_weights (ws ++ [lw]) = ROk codes /\
+    forall h desc lits ft,
+      Forall (fun s => 0 <= s <= Z.of_nat (length ws) /\ 0 < nth (Z.to_nat s) (ws ++ [lw]) 0) lits ->
+      16 <= Z.of_nat (length lits) <= 131072 ->
+      let payload := desc ++ huf4_bytes (code_fn codes) lits in
+      read_weights h payload = ROk (ws, ft, zlen desc) -> zlen payload < zlen lits ->
+      exists t, lit_ok h lits (huf_lit_header 2 (zlen lits) (zlen payload)) payload t.
+Proof. exact huffman_section_meets_O2. Qed.
+
+Print Assumptions C02_huffman_literals_meet_O2_for_any_weights.
 Print Assumptions C02_model_literals_section_meets_O2.
 Print Assumptions C02_huffman_side_conditions_hold_for_every_table.
 Print Assumptions C02_fastest_block_step_with_raw_literals.
